@@ -117,6 +117,17 @@ func cmdCheck(args []string) int {
 	}
 	if err := c.LoadRepoSpecs(); err != nil {
 		fmt.Println(err)
+		if strings.Contains(err.Error(), "CONTRACT-ERROR") && !strings.Contains(err.Error(), "syntax") {
+			// A contract names something the code no longer has (a field, a function, a type): what the
+			// contracts of this package carried was established on the unchanged tree and cannot be
+			// established any more. Same policy as for a function or instruction site that is gone.
+			replayDir := filepath.Join(*verif, "replays", *prop)
+			_ = os.MkdirAll(replayDir, 0o755)
+			path := filepath.Join(replayDir, "contract-mismatch-load.txt")
+			_ = os.WriteFile(path, []byte("property: "+*prop+"\nobligation: contract-mismatch\n\nThe contract files of /repo no longer fit the code (they name a field, function or type that is gone).\nNone of the obligations of this property can be generated.\n\nverifier output:\n"+err.Error()+"\n\nresult: no-failing-input-found\n"), 0o644)
+			fmt.Printf("VIOLATION property=%s replay=%s obligation=contract-mismatch[load] solver=none answer=contract-does-not-fit-the-code no-failing-input-found\n", *prop, path)
+			return 1
+		}
 		return engineErr("contract files")
 	}
 	for _, f := range ff.Findings {
